@@ -834,7 +834,8 @@ fn oracle_c15(rep: &mut Report, c: &Case, spec: &openapiv3::OpenAPI, h: &hir::Hi
             let mut trig = vec![];
             if n >= 2 {
                 let ks: Vec<Option<&str>> = spec.servers.iter().map(|s| s.description.as_ref().and_then(|d| kw.iter().find(|k| d.to_lowercase().contains(**k)).copied())).collect();
-                if ks.iter().any(|k| k.is_none()) { trig.push("serversWithoutKeywords".to_string()); }
+                // the recorded behaviour: one description without a keyword empties the server table, and the client falls back to <SERVICE>_BASE_URL
+                if ks.iter().any(|k| k.is_none()) { if matches!(strat, hir::ServerStrategy::BaseUrl) { trig.push("serversWithoutKeywords".to_string()); } }
                 else { let set: BTreeSet<_> = ks.iter().collect(); if set.len() < ks.len() { trig.push("serversSharingKeyword".to_string()); } }
             }
             let got = match strat { hir::ServerStrategy::BaseUrl => "<SERVICE>_BASE_URL".to_string(), hir::ServerStrategy::Single(u) => format!("literal {u}"), hir::ServerStrategy::Env => "<SERVICE>_ENV".to_string() };
